@@ -131,6 +131,10 @@ def make_class():
 
         def process(self, frames):
             h = CUR; k = h.k; h.log.append(f'process{k}')
+            hb = h.case.get('hb_facets')
+            if hb and getattr(self, 'emitter', None) is not None:
+                # what the telemetry bridge does between two heartbeats: new heartbeat facets (metric names are user-chosen: dots, dashes, ...)
+                self.emitter.update_heartbeat_lineage(facets={name: k for name in hb})
             self.do(f'process{k}', h.iter(k).get('process', 'ret'))
             return None
 
